@@ -37,7 +37,15 @@ def make_basis(spl, cfg, rng=None):
         breaks = make_breaks(rng, cfg["ncells"], cfg["kind"], cfg.get("a"), cfg.get("b"))
     knots = spl.make_knots(breaks, int(cfg["degree"]), bool(cfg["periodic"]))
     uniform_flag = bool(cfg.get("fast", False)) or (cfg["kind"] == "uniform" and cfg.get("uniform_flag", False))
-    basis = spl.BSplines(knots, int(cfg["degree"]), bool(cfg["periodic"]), uniform_flag)
+    # the flags and the degree as Python values or as their numpy counterparts (np.True_/np.False_, np.int64): a flag deduced from
+    # an array comparison is a numpy bool, and `flag is True` is False for it
+    k = int(cfg.get("seed", 0)) % 3
+    per, deg = bool(cfg["periodic"]), int(cfg["degree"])
+    if k == 1:
+        per, uniform_flag = np.bool_(per), np.bool_(uniform_flag)
+    elif k == 2:
+        deg = np.int64(deg)
+    basis = spl.BSplines(knots, deg, per, uniform_flag)
     return basis, breaks
 
 
